@@ -158,7 +158,7 @@ void World::destroy_all() {
 }
 
 // ------------------------------------------------------------------------------------------ segments
-OpResult World::op_make_seg(const Op &op, bool is_probe) {
+OpResult World::op_make_seg(const Op &op, bool is_probe, bool shared_font) {
     OpResult r; r.kind = "seg";
     int fi = pick_face(op.arg(0)); if (fi < 0) { r.kind = "skip"; return r; }
     FaceObj &f = faces[size_t(fi)];
@@ -171,7 +171,8 @@ OpResult World::op_make_seg(const Op &op, bool is_probe) {
     gr_font *font = 0; gr_feature_val *fv = 0; gr_font *tmpfont = 0; gr_feature_val *tmpfv = 0;
     if (is_probe) {
         float ppm = float(op.arg(1)) / 16.0f;
-        if (op.arg(1) > 0) { API("gr_make_font", BUDGET_SMALL); tmpfont = gr_make_font(ppm, f.face); font = tmpfont; }
+        if (shared_font) { int fo = pick_font(op.arg(1), fi); if (fo >= 0) font = fonts[size_t(fo)].font; }
+        else if (op.arg(1) > 0) { API("gr_make_font", BUDGET_SMALL); tmpfont = gr_make_font(ppm, f.face); font = tmpfont; }
         if (op.a.size() > 5) {
             API("featureval", BUDGET_SMALL);
             tmpfv = gr_face_featureval_for_lang(f.face, u32(op.arg(5)));
@@ -199,7 +200,7 @@ OpResult World::op_make_seg(const Op &op, bool is_probe) {
         if (s.seg) { API("gr_seg_destroy", BUDGET_LOAD); gr_seg_destroy(s.seg); }
         if (tmpfv) { API("gr_featureval_destroy", BUDGET_SMALL); gr_featureval_destroy(tmpfv); }
         if (tmpfont) { API("gr_font_destroy", BUDGET_SMALL); gr_font_destroy(tmpfont); }
-        if (is_probe && (f.options & 2) && alloc_live() != alloc_before)
+        if (is_probe && !concurrent && (f.options & 2) && alloc_live() != alloc_before)
             violation(leak_prop + ":segment-leak", strf("%zd allocation(s) left after a segment (and its temporary font/feature values) was destroyed on a preloaded face: %s", ssize_t(alloc_live()) - ssize_t(alloc_before), alloc_describe().c_str()));
         return r;
     }
@@ -391,6 +392,7 @@ OpResult World::exec(const Op &op) {
     if (k == "make_face") return op_make_face(op);
     if (k == "make_seg") return op_make_seg(op, false);
     if (k == "probe_seg") return op_make_seg(op, true);
+    if (k == "job_seg") return op_make_seg(op, true, true);
     if (k == "linebreak") return op_linebreak(op);
     if (k == "justify") return op_justify(op);
     if (k == "face_query") return op_face_query(op);
